@@ -29,6 +29,9 @@ def _orth(rng, n):
     return q
 
 
+COND_MODERATE = 1e6
+
+
 def make_matrix(rng, kind, n):
     cond = 10.0 ** rng.uniform(0.0, 3.0)
     scale = 10.0 ** rng.uniform(-2.0, 2.0)
@@ -122,7 +125,7 @@ def run_case(case):
         else:
             mode = "regular"
         trans = bool(rng.random() < 0.4)
-        guess = str(rng.choice(["none", "zero", "exact", "random"]))
+        guess = str(rng.choice(["none", "zero", "exact", "random", "other"]))
         bscale = 10.0 ** rng.uniform(-4.0, 4.0)
         desc = {"n": n, "fmt": fmt, "solver": solver, "mode": mode, "trans": trans, "guess": guess}
 
@@ -189,6 +192,12 @@ def run_case(case):
             init = lambda: np.zeros(n)  # noqa: E731
         elif guess == "exact":
             init = lambda: np.copy(xex)  # noqa: E731
+        elif guess == "other":
+            # warm start with the solution of the other orientation (A^T x = b when solving A x = b and vice versa)
+            xo = np.linalg.solve(A if trans else A.T, b)
+            init = lambda: np.copy(xo)  # noqa: E731
+            bump("guess_other_unsymmetric", int(not sym))
+            bump("gmres_trans_guess_other_unsymmetric", int(not sym and trans and solver == "GMRES"))
         elif guess == "random":
             g0 = xex + rng.normal(size=n) * np.linalg.norm(xex) * 10.0 ** rng.uniform(-6, 0)
             init = lambda: np.copy(g0)  # noqa: E731
@@ -226,6 +235,11 @@ def run_case(case):
         if x.shape != (n,) or not np.all(np.isfinite(x)):
             viol.append({"what": "%s returned a non-finite or mis-shaped vector" % solver,
                          "key": {"solver": solver, "kind": "non-finite"}, "detail": {"A": A, "b": b, "desc": desc}})
+            continue
+        if solver != "LU" and not desc["cond"] <= COND_MODERATE:
+            # outside "moderate condition number" (near-singular KKT blocks: rank-deficient rows with a tiny dual
+            # regularisation): the iterative solvers' residual is not judged
+            bump("ill_conditioned_not_judged_%s" % solver)
             continue
         r = Aop @ x - b
         rn2 = float(np.linalg.norm(r))
@@ -275,15 +289,17 @@ def finalize(agg, tier):
     return {
         "rule": "random square systems n in 1..40 (and a share with n in 41..300): SPD / symmetric indefinite / KKT-structured / unsymmetric dense and "
                 "sparse with cond <= 1e3 and scale 1e-2..1e2, right-hand sides of norm 1e-4..1e4, COO/CSR/CSC input, "
-                "forward and transposed solves, initial guess none/zero/exact/random; structurally singular systems "
+                "forward and transposed solves, initial guess none/zero/exact/random/solution of the other orientation; structurally singular systems "
                 "(zero row, zero column, two rows sharing one column, all zero) for LU; cyclic shifts with n>=25 for "
                 "GMRES stagnation; a system is non-trivial when the solver returned a vector that was then judged by "
                 "the dense residual oracle, or raised the dedicated error on a singular/stagnating system; distinct by "
                 "(solver, kind, format, n, index)",
         "floors": {"regular_LU_returned": 200, "regular_GMRES_returned": 200, "regular_MINRES_returned": 100,
                    "singular_lu_raised": 50, "stagnate_gmres_raised": 20, "regular_LU_trans": 30,
-                   "regular_GMRES_trans": 30},
+                   "regular_GMRES_trans": 30, "guess_other_unsymmetric": 40, "gmres_trans_guess_other_unsymmetric": 8},
         "assumptions": ["oracles: LU normwise backward error <= 1e-12; GMRES ||r||_2 <= 1.01*max(1e-5||b||,1e-8) or "
                         "||r||_inf < 1e-8 (its early-return rule); MINRES ||r||_2 <= 1e-4(||A||_F||x||+||b||) (its stated 1e-5 applies to the recurrence residual; the true residual drifts with n and cond, observed maximum 3.4e-5)",
+                        "'moderate condition number' = cond_2 <= 1e6 for the iterative solvers (KKT-structured systems beyond that are "
+                        "solved but not judged, counted as ill_conditioned_not_judged_*); LU is judged at every condition number",
                         "Cholesky/MA57/MUMPS/SSIDS solvers are not installed and not exercised"],
     }
